@@ -48,6 +48,9 @@ PROPS = {'vel': ('velocity', (3,), 'float'), 'force': ('force', (3,), 'float'), 
          'disp': ('length', (3,), 'float')}
 SYMS = ['Al', 'Cu', 'Fe', 'Ni', 'Mg', 'Ti', 'Al-alt', 'vac']
 LABELS = ['core', 'bulk', 'surf', 'gb', 'xA', 'yB']
+# labels that look like numbers: exact through the DataModelDict object and JSON; XML re-types them (dependency
+# behaviour, outside the statement), so records carrying them are never sent through XML
+NUMLABELS = ['12', '003', '1e3', '7', '-4', '0.50', '12', 'core']
 
 
 def with_layout(a, layout):
@@ -90,7 +93,7 @@ class ModelEngine(Engine):
     expected_probes = ['read_in_other_epoch', 'xml_read', 'json_read', 'dm_read', 'path_read', 'stream_read', 'short_read_stream',
                        'scaled_property', 'symbols_with_gap', 'masses_partly_none', 'one_atom_system', 'length1_array',
                        'rank3_value', 'rewrite_chain', 'elastic_normalised', 'unseeded_epoch', 'string_property', 'error_field',
-                       'noncontiguous_input', 'box_read_into_used_object', 'io_error_read_raised', 'second_write_same_arguments', 'single_property_record']
+                       'noncontiguous_input', 'box_read_into_used_object', 'io_error_read_raised', 'second_write_same_arguments', 'single_property_record', 'integer_typed_positions']
     rule = ('Each run is a history of up to 30 operations over a set of up to 10 serialised artifacts: build a value-with-units / '
             'Box / Atoms / System / ElasticConstants in the current epoch from simulator-held physical (SI, dimension) values and '
             'write it (arrays handed over C-ordered, Fortran-ordered, transposed or as strided views; uc.model, .model(), dump("system_model"), JSON or XML text with any indent, returned / to path / to stream); '
@@ -230,7 +233,7 @@ class ModelEngine(Engine):
                 if cls == 'int':
                     vals = [r.randint(-9, 9) for _ in range(cnt)]
                 elif cls == 'str':
-                    vals = [r.choice(LABELS) for _ in range(cnt)]
+                    vals = [r.choice(NUMLABELS if (op['enc'] != 'xml' and r.random() < 0.3) else LABELS) for _ in range(cnt)]
                 else:
                     vals = [r.uniform(-9, 9) * SI_SCALE[kind] for _ in range(cnt)]
                 props[nm] = vals
@@ -244,7 +247,8 @@ class ModelEngine(Engine):
             units['pos'] = pos_unit
             units['atype'] = None
             op.update(n=n, V=V * 1e-10, origin=o * 1e-10, atype=atype, pos=pos, props=props, units=units,
-                      subset=r.choice([False, False, False, False, True, 'one']), by=r.choice(['prop_unit', 'lists', 'default']))
+                      subset=r.choice([False, False, False, False, True, 'one']), by=r.choice(['prop_unit', 'lists', 'default']),
+                      int_pos=r.random() < 0.15)
             if what == 'system':
                 nsym = r.choice([0, ntypes, ntypes, ntypes + 1])
                 syms = [r.choice(SYMS + [None]) for _ in range(nsym)]
@@ -488,6 +492,12 @@ class ModelEngine(Engine):
             else:
                 arrs[nm] = np.array(vals).reshape((n,) + ts)
                 ctx.probe('string_property')
+        pos_si = np.array(op['pos'], dtype=float)
+        if op.get('int_pos') and float(np.abs(pos).max()) > 2.0:
+            # whole-number coordinates in working units, in the integer-typed array np.array([[0, 0, 0], [1, 2, 3]]) gives
+            pos = np.round(pos).astype(int)
+            pos_si = pos / scale_of(st['base'], ut.L_)
+            ctx.probe('integer_typed_positions')
         lay = op.get('layout', 'C')
         if lay != 'C':
             pos = with_layout(pos, lay)
@@ -617,7 +627,7 @@ class ModelEngine(Engine):
             if nm == 'atype':
                 t.fields['p:atype'] = {'exact_arr': np.array(op['atype'], dtype=int)}
             elif nm == 'pos':
-                t.fields['p:pos'] = {'si': np.array(op['pos'], dtype=float), 'dim': ut.L_, 'tagged': (u != 'scaled') or t.meta.get('box_tagged', False),
+                t.fields['p:pos'] = {'si': pos_si, 'dim': ut.L_, 'tagged': (u != 'scaled') or t.meta.get('box_tagged', False),
                                      'scaled': u == 'scaled'}
             else:
                 kind, ts, cls = PROPS[nm]
@@ -815,6 +825,9 @@ class ModelEngine(Engine):
         t.meta = dict(t0.meta)
         o = obj.get('_obj')
         enc, indent = op['enc'], op['indent']
+        if enc == 'xml' and any(isinstance(f.get('exact_arr'), np.ndarray) and f['exact_arr'].dtype.kind in 'US'
+                                and any(str(x) in NUMLABELS[:6] for x in f['exact_arr'].reshape(-1)) for f in t0.fields.values()):
+            enc = 'json'
         if what == 'value':
             return None
         if what == 'box':
